@@ -50,7 +50,7 @@ def make_event(case):
         root = shapes.build(s, case["cls"])
     except BaseException as e:  # noqa
         return {"h": {"n": 0}, "root": 0, "ux": 0, "uy": 0, "outcome": "constructing the tree raised " + type(e).__name__, "exact": True, "X": [], "Y": [], "X2": [], "Y2": [],
-                "XM": [], "YM": [], "m": {}, "m2": {}, "mirror_ok": True}
+                "XM": [], "YM": [], "m": {}, "m2": {}, "mirror_ok": True, "ynd": True}
     objs = project.ObjTable()
     for n in preorder(root):
         objs.of(n)
@@ -72,7 +72,7 @@ def make_event(case):
                 objs.of(n)
         except BaseException as e:  # noqa
             return {"h": {"n": 0}, "root": 0, "ux": 0, "uy": 0, "outcome": "constructing the tree raised " + type(e).__name__, "exact": True, "X": [], "Y": [], "X2": [], "Y2": [],
-                    "XM": [], "YM": [], "m": {}, "m2": {}, "mirror_ok": True}
+                    "XM": [], "YM": [], "m": {}, "m2": {}, "mirror_ok": True, "ynd": True}
     ev = {"h": h, "root": 1, "ux": scaled(ux)[0], "uy": scaled(uy)[0], "outcome": "ok", "exact": True,
           "X": [], "Y": [], "X2": [], "Y2": [], "XM": [], "YM": [], "m": {}, "m2": {}, "mirror_ok": True}
     try:
@@ -100,6 +100,25 @@ def make_event(case):
         ev["X2"], ev["Y2"] = coords(objs.keep)
         L.layout(decoy)
         ev["m2"], e = measure_rec(m2); exact = exact and e
+        # units that are not exactly representable (0.1, 0.7; 1/3, 3.3): the row of a node is its depth times the unit - the very
+        # float product, not a running sum that drifts in the last bit - and the reported vertical bounds are those rows
+        ev["ynd"] = True
+        if case.get("nd", True) and len(objs) <= 60:
+            depth = {}
+
+            def dep(n, d):
+                if n is None:
+                    return
+                depth[id(n)] = d
+                dep(n.left, d + 1)
+                dep(n.right, d + 1)
+            for nux, nuy in ((0.1, 0.7), (1 / 3, 3.3)):
+                froot = shapes.build(s, case["cls"])
+                dep(froot, 0)
+                mm = TreeLayout().layout(froot, nux, nuy)
+                ys = [(n.y, depth[id(n)] * nuy) for n in preorder(froot)]
+                if any(a != b for a, b in ys) or mm.maxY != max(b for _, b in ys) or mm.minY != 0 or mm.height != mm.maxY - mm.minY:
+                    ev["ynd"] = False
         # mirrored tree, built fresh; node k (pre-order of the original) <-> its mirror image
         mroot = shapes.build(shapes.mirror(s), case["cls"])
         pairs = {}
